@@ -131,7 +131,24 @@ class Values:
                 lib = self._annotation_class(unit, p.annotation)
                 if lib is not None:
                     return V(("libinst", lib))
+                if self._annotation_head(p.annotation) in self.CONTAINER_HEADS:
+                    # a library-built container of user values (internal plumbing)
+                    return V(("elems", ("user", f"{unit.short}:{name}")))
         return V(("user", f"{unit.short}:{name}"))
+
+    CONTAINER_HEADS = {"List", "Deque", "Tuple", "Dict", "Set", "list", "tuple", "dict", "set", "deque"}
+
+    def _annotation_head(self, ann: ast.AST) -> str:
+        if isinstance(ann, ast.Constant) and isinstance(ann.value, str):
+            try:
+                ann = ast.parse(ann.value, mode="eval").body
+            except SyntaxError:
+                return ""
+        if isinstance(ann, ast.Subscript):
+            ann = ann.value
+        if isinstance(ann, ast.Attribute):
+            return ann.attr
+        return ann.id if isinstance(ann, ast.Name) else ""
 
     def _annotation_class(self, unit: Unit, ann: ast.AST) -> Optional[str]:
         if isinstance(ann, ast.Constant) and isinstance(ann.value, str):
